@@ -211,6 +211,42 @@ def r2(chk, prog, m):
                     if any(i.op == "call" and i.callee == "_json_c_set_last_err" for i in fb.instrs) and _returns_only(f, fb, lambda v: v.kind == "null"):
                         neg_ok = True
     ob(neg_ok, "read error", "ret < 0 sets the message and returns NULL", "a failing read() is not reported")
+    # the loop is left only when read() returned <= 0 (end of input / error) or through a failing return
+    body = None
+    for a_, h in cfg.back_edges():
+        bset = {h}
+        work = [a_]
+        while work:
+            b = work.pop()
+            if b in bset:
+                continue
+            bset.add(b)
+            work.extend(b.preds)
+        if r.block in bset:
+            body = bset
+    exits_ok = body is not None
+    bad_exit = None
+    if body is not None:
+        for b in body:
+            for s_ in b.succs:
+                if s_ in body:
+                    continue
+                # allowed: the false edge of (ret > 0); or an edge into code that only returns NULL
+                t = b.term
+                allowed = False
+                if t.op == "br" and t.ops and t.ops[0].kind == "reg":
+                    d = f.defs.get(t.ops[0].v)
+                    if d is not None and d.op == "icmp" and _strip(f, d.ops[0]).kind == "reg" and _strip(f, d.ops[0]).v == r.res \
+                            and d.ops[1].kind == "int" and d.ops[1].v == 0 and d.x["pred"] == "sgt" and s_.name == t.x["targets"][1]:
+                        allowed = True
+                if not allowed and _returns_only(f, s_, lambda v: v.kind == "null"):
+                    allowed = True
+                if not allowed:
+                    exits_ok = False
+                    bad_exit = t
+    ob(exits_ok, "loop exits", "the read loop ends only when read() returns <= 0 or on a failing return",
+       "the read loop has another way out (%s): it can stop while the descriptor still has data, e.g. after a short read, and "
+       "parse a truncated text" % (bad_exit.locstr() if bad_exit is not None else "no loop found"), bad_exit)
     # parse once after the loop
     ps = [i for i in f.instrs() if i.op == "call" and i.callee == "json_tokener_parse_ex"]
     headers = {h for _, h in cfg.back_edges()}
